@@ -133,6 +133,9 @@ def gen_term(rng, op, depth=0):
             if depth and (" " in t or "(" in t or "[" in t):
                 continue        # inside a collector the outer parser is not regex-aware: not generated
             return t
+    if depth == 0 and rng.random() < 0.12:
+        # terms holding quote marks, also as their first / last character (rendered quote-demarcated by style "qt")
+        return rng.choice(['say "hi"', '"q"', "5'", "'a", 'a"b', "it's", '"', "x'y'", 'end"'])
     for _ in range(20):
         w = word(rng)
         if "'" in w or '"' in w or not w.strip():
@@ -204,7 +207,7 @@ def reduced():
 
 
 def render_variant(rng, segs, sep):
-    style = rng.choice(["bs", "bs", "q"])
+    style = rng.choice(["bs", "bs", "q", "qt"])
     text = gp.render(segs, sep, style=style)
     return text
 
@@ -220,7 +223,10 @@ def mutate_ast(rng, segs):
     elif s[0] == "SEARCH":
         segs[i] = ("SEARCH", not s[1]) + tuple(s[2:])
     elif s[0] == "ANCHOR":
-        segs[i] = ("ANCHOR", s[1] + "x")
+        # another anchor - or a *key* that is spelled like this anchor reference (\&name)
+        segs[i] = ("ANCHOR", s[1] + "x") if rng.random() < 0.5 else ("KEY", "&" + s[1])
+    elif s[0] == "KEY" and s[1].startswith("&") and len(s[1]) > 1 and s[1][1:].isalnum() and rng.random() < 0.5:
+        segs[i] = ("ANCHOR", s[1][1:])
     elif s[0] == "KW":
         segs[i] = ("KW", s[1], s[2], list(s[3]) + ["zz"]) if len(s[3]) < 2 and s[2] not in ("name",) else ("KEY", "zz")
     else:
